@@ -113,7 +113,7 @@ def var_pairs(alts):
     return out
 
 
-OPT_CFG = {"opt.is": (3, 2), "opt.ti": (7, 3), "opt.t2": (8, 7)}
+OPT_CFG = {"opt.is": (3, 2), "opt.ti": (7, 3), "opt.t2": (8, 7), "opt.ib": (3, 0)}
 
 
 def opt_full(T, U):
@@ -124,7 +124,7 @@ def opt_full(T, U):
                 out.append(step(opc, t, v))
         for opc in "pPq":
             out.append(step(opc, t, 2))
-        for opc in "nbrcmklfghxyXYdD":
+        for opc in "nbrcmklfghxyXYdD" + ("v" if T == 7 else ""):
             out.append(step(opc, t))
     for v in (1, 2, 3):
         out.append(step("E", 0, v))
@@ -138,13 +138,13 @@ def opt_core(T, U):
         for v in (1, 2):
             out.append(step("e", t, v))
         out.append(step("a", t, 3))
-        for opc in "ncmxy":
+        for opc in "ncmxy" + ("v" if T == 7 else ""):
             out.append(step(opc, t))
     out += [step("E", 0, 2), step("R"), step("s")]
     return out
 
 
-EXP_CFG = ["exp.il", "exp.tt", "exp.ti"]
+EXP_CFG = ["exp.il", "exp.tt", "exp.ti", "exp.ii"]
 
 
 def exp_full():
